@@ -43,6 +43,10 @@ BATCH_MATRIX = 1
 
 REG_CLASSES = ["BaseException", "Exception", "OSError", "LookupError", "ArithmeticError", "ValueError", "KeyError", "UserError",
                "MidUserError", "DeepUserError", "UserBase", "RuntimeError", "FileNotFoundError", "MixedError", "BadStr"]
+class AmbientError(Exception):
+    """An exception the application is busy handling while it logs."""
+
+
 CLASSMAP = dict(excs.POOL, BaseException=BaseException, Exception=Exception, LookupError=LookupError, ArithmeticError=ArithmeticError)
 
 
@@ -595,7 +599,16 @@ def run_case(spec):
                 late.append((name, kind))
                 register_exception_extractor(CLASSMAP[name], make_extractor(tag, kind))
                 registry[CLASSMAP[name]] = (tag, kind)
-            it.exec_children([node], None, None, top=True)
+            if rng.random() < 0.25:
+                # this part of the program runs while the application is handling an unrelated exception (a retry loop's except
+                # clause, a clean-up handler): actions that succeed there succeeded, actions that fail there failed with their own exception
+                try:
+                    raise AmbientError("being handled while the program logs")
+                except AmbientError:
+                    it.exec_children([node], None, None, top=True)
+                res["counters"]["program_parts_run_while_another_exception_is_handled"] = res["counters"].get("program_parts_run_while_another_exception_is_handled", 0) + 1
+            else:
+                it.exec_children([node], None, None, top=True)
         forest = it.forest
     finally:
         remove_destination(rec)
